@@ -27,6 +27,12 @@ for proto in ("lite", "full"):
     add(proto, "shared", 1, 2, "write", 3, "thorough", qdepth=2)
     add(proto, "timeout", 1, 1, "read", 2, "quick" if proto == "lite" else "thorough", die_after_accept=True)
     add(proto, "timeout", 1, 1, "write", 2, "thorough", die_after_accept=True)
+    # response ready already high while the request is offered / absorbed by the time-out responder
+    add(proto, "timeout", 1, 1, "read", 2, "quick", eager_ready=True)
+    add(proto, "timeout", 1, 1, "write", 2, "quick", eager_ready=True)
+    add(proto, "timeout", 1, 1, "mixed", 2, "thorough", eager_ready=True)
+    add(proto, "shared", 1, 2, "read", 2, "quick", eager_ready=True)
+    add(proto, "shared", 2, 2, "read", 2, "thorough", eager_ready=True)
 
 
 def configs(tier):
